@@ -1,5 +1,6 @@
 import EdzedProofs.Basic
 import EdzedProofs.Counter
 import EdzedProofs.Interval
+import EdzedProofs.IntervalTables
 import EdzedProofs.IntervalText
 import EdzedProofs.Simulate
